@@ -764,6 +764,12 @@ def corpus():
         ["Cop", 6, 6, "append", [3], [1, 0, [3]]]] + probes_for(4) + [
         ["CopNew", 4, 17, "setitem", ["a", [3]], [0, 1]]] + probes_for(4) + [
         ["Cop", 4, 17, "delitem", ["b"], [1, 1, []]]] + probes_for(4)))
+    # a filtered link that is not the last one, a populated matching trait, then add_trait of another matching
+    # (tagged) trait: the existing value must not be hooked a second time
+    tv = ["tag", False, False, [[0, True, False, []]]]
+    cs.append(dict(npool=3, shape="acyclic", ops=[
+        ["SetRef", 0, 1, 1], ["Observe", 0, 0, tv], ["AddTrait", 0, 13], ["SetRef", 0, 13, 2]] + probes_for(3) + [
+        ["SetRef", 0, 1, None]] + probes_for(3) + [["SetRef", 0, 13, None]] + probes_for(3)))
     # finding: del o.kids notifies twice, the new default list is hooked twice; once replaced it keeps calling
     ki = parse_named("kids.items")
     cs.append(dict(npool=3, shape="acyclic-del", name="del-container", ops=[
